@@ -22,6 +22,8 @@ def showExc : Exc → String
   | .other 4 => "E1s"
   | .other 5 => "KeyboardInterrupt"
   | .other 6 => "SystemExit"
+  | .other 7 => "FE"
+  | .other 8 => "HookErr"
   | .other n => s!"X{n}"
 
 def parseExc (s : String) : Option Exc :=
@@ -34,6 +36,7 @@ def parseExc (s : String) : Option Exc :=
   | "E1s" => some (.other 4)
   | "KI" => some (.other 5)
   | "SE" => some (.other 6)
+  | "FE" => some (.other 7)
   | "RT" => some (.runtime 0)
   | "TE" => some .typeErr
   | "SAI" => some .stopAsync
